@@ -60,6 +60,12 @@ def check(h):
 
     resp_segments = {}     # (node, dst, invoke, reqseq) -> set of seq numbers
     start_of = {}
+    start_oct = {}
+    segack_rx = {}         # (node, src, invoke) -> seqs at which a server segment-ack was delivered to node
+    for f in w.rx:
+        n, a = txn.decode_lan_frame(f['octets'])
+        if a is not None and a['type'] == wire.T_SEGACK and a['srv']:
+            segack_rx.setdefault((f['node'], f['src'], a['invoke']), []).append(f['seq'])
     for f in w.tx:
         n, a = txn.decode_lan_frame(f['octets'])
         if a is None or n is None:
@@ -74,7 +80,15 @@ def check(h):
             # knowledge counts as of the latest (re)start of this transfer: a transfer already
             # in progress cannot be re-segmented when an I-Am arrives in the middle of it
             if not a['seg'] or a['seq'] == 0:
-                start_of[(node, dst, a['invoke'])] = f['seq']
+                k3 = (node, dst, a['invoke'])
+                prev = start_oct.get(k3)
+                if (a['seg'] and prev is not None and prev[1] == f['octets']
+                        and not any(prev[0] < q < f['seq'] for q in segack_rx.get(k3, ()))):
+                    # the segment timer repeats the unacknowledged first segment: still the same transfer
+                    w.probe('c12-first-segment-repeat')
+                else:
+                    start_of[k3] = f['seq']
+                    start_oct[k3] = (f['seq'], f['octets'])
             st0 = start_of.get((node, dst, a['invoke']), f['seq'])
             known = [x for x in iam.get((node, dst), []) if x[0] < st0]
             if known:
